@@ -396,3 +396,64 @@ Lemma to_string_all_uint32 cp : 0 <= cp < 4294967296 ->
 Proof.
   intros H. destruct (cp <? 1114112) eqn:E; [apply to_string_rfc3629|apply to_string_beyond]; lia.
 Qed.
+
+(* ------------------------------------------------------------------------------------------ *)
+(* fromBase64 on everything the reference oracle calls an RFC 4648 encoding                      *)
+(* ------------------------------------------------------------------------------------------ *)
+
+Lemma list_eqb_eq : forall a b, list_eqb a b = true -> a = b.
+Proof.
+  induction a as [|x a IH]; intros [|y b] H; try discriminate; [reflexivity|].
+  cbn [list_eqb] in H. apply andb_prop in H. destruct H as [Hxy Hab]. f_equal; [lia|apply IH; exact Hab].
+Qed.
+
+Lemma index_of_range c : forall l k0 k, index_of c l k0 = Some k -> k0 <= k < k0 + Z.of_nat (length l).
+Proof.
+  induction l as [|x t IH]; intros k0 k H; [discriminate|].
+  cbn [index_of] in H. cbn [length]. destruct (x =? c).
+  - injection H as <-. lia.
+  - apply IH in H. lia.
+Qed.
+
+Lemma b64_index_range c k : b64_index c = Some k -> 0 <= k < 64.
+Proof. unfold b64_index. intros H. apply index_of_range in H. change (Z.of_nat (length b64_alphabet)) with 64 in H. lia. Qed.
+
+Lemma rfc4648_decode_wf : forall n s bs, (length s <= n)%nat -> rfc4648_decode s = Some bs -> wf_bytes bs = true.
+Proof.
+  induction n as [|n IH]; intros s bs Hn H.
+  - destruct s; [|cbn [length] in Hn; lia]. injection H as <-. reflexivity.
+  - destruct s as [|c0 [|c1 [|c2 [|c3 t]]]]; try discriminate.
+    { injection H as <-. reflexivity. }
+    cbn [rfc4648_decode] in H.
+    destruct (b64_index c0) as [k0|] eqn:E0; [|discriminate].
+    destruct (b64_index c1) as [k1|] eqn:E1; [|discriminate].
+    apply b64_index_range in E0. apply b64_index_range in E1.
+    assert (B0 : is_byte (k0 * 4 + k1 / 16) = true) by (unfold is_byte; lia).
+    destruct ((c2 =? b64_pad) && (c3 =? b64_pad)).
+    { destruct t; [|discriminate]. injection H as <-. unfold wf_bytes. cbn [forallb]. rewrite B0. reflexivity. }
+    destruct (b64_index c2) as [k2|] eqn:E2; [|discriminate].
+    apply b64_index_range in E2.
+    assert (B1 : is_byte (k1 mod 16 * 16 + k2 / 4) = true) by (unfold is_byte; lia).
+    destruct (c3 =? b64_pad).
+    { destruct t; [|discriminate]. injection H as <-. unfold wf_bytes. cbn [forallb]. rewrite B0, B1. reflexivity. }
+    destruct (b64_index c3) as [k3|] eqn:E3; [|discriminate].
+    apply b64_index_range in E3.
+    destruct (rfc4648_decode t) as [r|] eqn:Er; [|discriminate].
+    injection H as <-.
+    assert (B2 : is_byte (k2 mod 4 * 64 + k3) = true) by (unfold is_byte; lia).
+    unfold wf_bytes. cbn [forallb]. rewrite B0, B1, B2. cbn [andb].
+    apply (IH t r); [cbn [length] in Hn; lia|exact Er].
+Qed.
+
+Lemma from_base64_preimage s bs : rfc4648_preimage s = Some bs -> from_base64 s = Ok bs.
+Proof.
+  unfold rfc4648_preimage. destruct (rfc4648_decode s) as [d|] eqn:Ed; [|discriminate].
+  destruct (list_eqb (rfc4648_encode d) s) eqn:Ee; [|discriminate].
+  intros H. injection H as <-. apply list_eqb_eq in Ee. rewrite <- Ee.
+  apply from_base64_inverts. apply (rfc4648_decode_wf (length s) s d); [lia|exact Ed].
+Qed.
+
+Lemma preimage_of_encode_example :
+  rfc4648_preimage [90; 109; 57; 118; 89; 109; 69; 61] = Some [102; 111; 111; 98; 97]
+  /\ rfc4648_preimage [90; 109; 57; 118; 89; 109; 70; 61] = None.   (* "Zm9vYmF=": non-zero padding bits *)
+Proof. split; vm_compute; reflexivity. Qed.
